@@ -479,6 +479,10 @@ def extract_permuted_tags(tree):
                 tags.append(n.left.value)
             if isinstance(n, ast.For) and isinstance(n.iter, (ast.List, ast.Tuple)):
                 tags += [e.value for e in n.iter.elts if isinstance(e, ast.Constant) and isinstance(e.value, str)]
+            # `_tags_with_base(results, "tag")` (tags with or without tag_suffix)
+            if (isinstance(n, ast.Call) and isinstance(n.func, ast.Name) and n.func.id == "_tags_with_base"
+                    and len(n.args) == 2 and isinstance(n.args[1], ast.Constant) and isinstance(n.args[1].value, str)):
+                tags.append(n.args[1].value)
     if not tags:
         raise Unsupported("permute_results: no permuted tags found")
     return sorted(set(tags))
